@@ -35,7 +35,7 @@ func alphabet() []string {
 var harness = &seqmc.Harness{
 	Property: prop,
 	Configs: func(tier string) []seqmc.Config {
-		d := 6
+		d := 7
 		if tier == "thorough" {
 			d = 8
 		}
